@@ -37,7 +37,8 @@ def harness():
 
 
 def configs(tier):
-    return ["quick", "single"] if tier == "quick" else ["quick", "single", "thorough", "three"]
+    # "expiry": workers expire (virtual clock Tick) and the owner calls update(); replayed with setExpiryTimeout(10)
+    return ["quick", "single", "expiry"] if tier == "quick" else ["quick", "single", "expiry", "thorough", "three"]
 
 
 def model_checks(tier):
@@ -58,10 +59,13 @@ def x_scripts(cfgname):
     lines, meta = [], {}
     for pi, path in enumerate(paths):
         xid = "%s-%d" % (cfgname, pi)
-        lines.append("X %s mode=script max=%d" % (xid, mx))
+        lines.append("X %s mode=script max=%d expiry=%d" % (xid, mx, 10 if cfgname.startswith("expiry") else -1))
         for ei in path:
             src, dst, name, args = g.edges[ei]
-            if name in ("SCall", "SPush", "SPool", "SCreate", "CCall", "CClear", "TFlag", "TNotify", "TLockPool", "TJoin", "TClearQ"):
+            if name == "Tick":
+                lines.append("S t=0 act=Clock ms=11")
+            elif name in ("SCall", "SPush", "SPool", "SCreate", "CCall", "CClear", "TFlag", "TNotify", "TLockPool", "TJoin", "TClearQ",
+                          "UCall", "UNotify", "ULockPool", "UJoin"):
                 lines.append("S t=0 act=%s" % name)
             elif name == "TCall":
                 lines.append("S t=0 act=TCall final=%d" % (1 if g.states[src]["opsLeft"] == 0 else 0))
@@ -104,7 +108,7 @@ def compare_projection(g, path, recs, maxspawn):
         spec_en = set()
         for oe in g.out.get(dst, ()):
             n2, a2 = g.edges[oe][2], g.edges[oe][3]
-            if n2 == "Spurious":
+            if n2 in ("Spurious", "Tick"):
                 continue
             spec_en.add(a2[0] if n2.startswith("W") else 0)
         real_en = set(steps[i]["en"])
